@@ -42,7 +42,7 @@ func splitCapture(w *netsim.World, spec *netsim.CaptureSpec, from, to int) []byt
 func (*hsplit) Run(rc *core.RunCtx) *core.RunResult {
 	res := core.NewResult()
 	t := rc.T
-	params := netsim.Params{}
+	params := netsim.Params{V4Only: true} // the split property is not about address families
 	w := netsim.Generate(t, params)
 	w.Run()
 	res.Steps = w.Events
@@ -51,7 +51,7 @@ func (*hsplit) Run(rc *core.RunCtx) *core.RunResult {
 		res.Violate("HARNESS", "generator", "hsplit", w.Err)
 		return res
 	}
-	spec := netsim.DrawCaptureSpec(t, params)
+	spec := netsim.DrawCaptureSpec(t, params, w)
 	n := len(w.Tap)
 	if n < 4 {
 		return res
